@@ -8,6 +8,8 @@ import (
 	"bytes"
 	"context"
 	"fmt"
+	"github.com/shutter-network/rolling-shutter/rolling-shutter/gnosisaccessnode"
+	"os"
 	"sort"
 
 	pubsub "github.com/libp2p/go-libp2p-pubsub"
@@ -27,6 +29,9 @@ type plan struct {
 	exhaustive bool
 	set        []int // triggered nodes (exhaustive mode)
 	chunk      int
+	chunks     int
+	nid        int   // identities per trigger
+	prio       []int // node scheduling priority (global interleaving); nil = 0,1,2
 }
 
 var plans []plan
@@ -52,6 +57,7 @@ func main() {
 		ID:    "C03",
 		Level: "exploration",
 		Rule: "exhaustive cases: flavour in {core, gnosis, service}, n=3, t=2, every triggered subset of size >=2, every per-node local order of {own trigger, arrival of each other triggered node's shares message (kept or lost, at most n-t lost per receiver)} that is causally feasible, x keys-message placement {as soon as produced, after all share events}; " +
+			"gnosis interleaving cases: n=3, t=2, two identities (slot + one queued transaction), every triggered subset, every node priority order, keys at once to all / only to not-yet-triggered nodes (a sixth of the local-order products per priority order in the quick tier, all in thorough); " +
 			"sampled cases: n in {3,4,5}, all thresholds, random local orders with duplicates, random keys-message placement, one or two identities. distinct = (flavour, n, t, triggered set, local orders, loss/dup pattern, keys placement); non-trivial = at least one share message lost or duplicated, or a node triggered after it received shares",
 		Assumptions: []string{
 			"libp2p is replaced by a virtual network delivering the produced bytes to each receiver's real combined validator and handlers; keys messages are never lost (the property's fault model), share messages are lost at most n-t times per receiver",
@@ -63,8 +69,17 @@ func main() {
 			for _, f := range []gossipnet.Flavour{gossipnet.Core, gossipnet.Gnosis, gossipnet.Service} {
 				for _, s := range subsets(3, 2) {
 					for c := 0; c < 4; c++ {
-						plans = append(plans, plan{flavour: f, n: 3, t: 2, exhaustive: true, set: s, chunk: c})
+						plans = append(plans, plan{flavour: f, n: 3, t: 2, exhaustive: true, set: s, chunk: c, chunks: 4, nid: 1})
 					}
+				}
+			}
+			// Gnosis: a keys message moves the receiver's transaction pointer, so a trigger that runs
+			// after it asks for other identities: here the global interleaving matters. Two identities
+			// (slot + one queued transaction), every node priority order, keys delivered at once.
+			gch := env.Scale(6, 1)
+			for _, s := range subsets(3, 2) {
+				for pi, pr := range [][]int{{0, 1, 2}, {0, 2, 1}, {1, 0, 2}, {1, 2, 0}, {2, 0, 1}, {2, 1, 0}} {
+					plans = append(plans, plan{flavour: gossipnet.Gnosis, n: 3, t: 2, exhaustive: true, set: s, chunk: (pi + int(env.Seed)) % gch, chunks: gch, nid: 2, prio: pr})
 				}
 			}
 			ns := env.Scale(240, 9000)
@@ -152,7 +167,7 @@ func runCase(env *vlib.Env, idx int, rep *vlib.Reporter) {
 	p := plans[idx]
 	if p.exhaustive {
 		w := gossipnet.NewWorld(env.Seed, p.n, p.t)
-		net, err := newNetwork(ctx, w, p.flavour, 1, vlib.NewRng(env.Seed, 3, 1))
+		net, err := newNetwork(ctx, w, p.flavour, p.nid, vlib.NewRng(env.Seed, 3, 1))
 		if err != nil {
 			rep.Inconclusive(err.Error())
 			return
@@ -167,11 +182,17 @@ func runCase(env *vlib.Env, idx int, rep *vlib.Reporter) {
 			for b := range seqs[1] {
 				for c := range seqs[2] {
 					count++
-					if count%4 != p.chunk {
+					if count%p.chunks != p.chunk {
 						continue
 					}
-					for _, mode := range []string{"immediate", "deferred"} {
+					modes := []string{"immediate", "deferred"}
+					if p.prio != nil {
+						modes = []string{"immediate", "split"}
+						rep.Obs("gnosis_priority_schedules", 1)
+					}
+					for _, mode := range modes {
 						local := [][]localEvent{seqs[0][a], seqs[1][b], seqs[2][c]}
+						net.prio = p.prio
 						if !net.run(ctx, rep, p.set, local, nil, mode, true) {
 							return
 						}
@@ -243,6 +264,7 @@ func runCase(env *vlib.Env, idx int, rep *vlib.Reporter) {
 // ---- network --------------------------------------------------------------------------------
 
 type network struct {
+	prio   []int
 	w      *gossipnet.World
 	f      gossipnet.Flavour
 	nodes  []*gossipnet.Node
@@ -344,6 +366,7 @@ func (net *network) run(ctx context.Context, rep *vlib.Reporter, set []int, loca
 			}
 		}
 	}
+	triggeredNow := make([]bool, n)
 	deliverKeys := func(to int, s gossipnet.Sent) bool {
 		d := net.nodes[to].Deliver(ctx, s.Topic, s.Data)
 		rep.Obs("deliveries", 1)
@@ -353,15 +376,32 @@ func (net *network) run(ctx context.Context, rep *vlib.Reporter, set []int, loca
 		}
 		return true
 	}
+	dbg := os.Getenv("VERIF_DEBUG") != ""
 	broadcastKeys := func(from int, outs []gossipnet.Sent) bool {
 		for _, o := range outs {
+			if dbg {
+				switch m := o.Msg.(type) {
+				case *p2pmsg.DecryptionKeyShares:
+					fmt.Fprintf(dbgOut(), "  node %d sends shares: %d shares extra=%v\n", from, len(m.Shares), m.Extra != nil)
+				case *p2pmsg.DecryptionKeys:
+					fmt.Fprintf(dbgOut(), "  node %d sends keys: %d keys extra=%.80v\n", from, len(m.Keys), m.Extra)
+				}
+			}
 			if _, ok := o.Msg.(*p2pmsg.DecryptionKeys); !ok {
 				continue
 			}
 			rep.Obs("keys_messages", 1)
 			if net.access != nil {
 				if res := net.access.Validate(ctx, o.Topic, o.Data); res != pubsub.ValidationAccept {
-					rep.Violationf("access-node-rejects-keys", map[string]any{"schedule": desc}, "the access node does not accept a keys message produced by an honest keyper")
+					why := ""
+					if km, ok := o.Msg.(*p2pmsg.DecryptionKeys); ok {
+						h := gnosisaccessnode.NewDecryptionKeysHandler(&gnosisaccessnode.Config{InstanceID: net.w.InstanceID, MaxNumKeysPerMessage: net.w.MaxKeys}, net.access.Storage)
+						if _, err := h.ValidateMessage(ctx, km); err != nil {
+							why = err.Error()
+						}
+						why += fmt.Sprintf(" [sender=%d keys=%d extra=%v]", from, len(km.Keys), km.Extra)
+					}
+					rep.Violationf("access-node-rejects-keys", map[string]any{"schedule": desc, "reason": why}, "the access node does not accept a keys message produced by an honest keyper: %.200s", why)
 					return false
 				}
 				rep.Obs("access_node_accepts", 1)
@@ -370,7 +410,15 @@ func (net *network) run(ctx context.Context, rep *vlib.Reporter, set []int, loca
 				if to == from {
 					continue
 				}
-				switch keysMode {
+				mode := keysMode
+				if mode == "split" {
+					// at once to nodes that have not been triggered yet, at the end to the others
+					mode = "deferred"
+					if !triggeredNow[to] {
+						mode = "immediate"
+					}
+				}
+				switch mode {
 				case "immediate":
 					if !deliverKeys(to, o) {
 						return false
@@ -391,7 +439,6 @@ func (net *network) run(ctx context.Context, rep *vlib.Reporter, set []int, loca
 	byDelivery := make([]bool, n) // the t-th distinct share arrived as a delivery (then the node must derive)
 	byOwn := make([]bool, n)      // the node's own share completed the threshold
 	hadTrigger := make([]bool, n) // the node had been triggered already when a delivery completed its threshold
-	triggeredNow := make([]bool, n)
 	for i := range held {
 		held[i] = map[int]bool{}
 	}
@@ -409,9 +456,17 @@ func (net *network) run(ctx context.Context, rep *vlib.Reporter, set []int, loca
 			}
 		}
 	}
+	nodeOrder := make([]int, n)
+	for i := range nodeOrder {
+		nodeOrder[i] = i
+	}
+	if len(net.prio) == n {
+		nodeOrder = net.prio
+		desc += fmt.Sprintf(" prio=%v", net.prio)
+	}
 	for {
 		progressed := false
-		for x := 0; x < n; x++ {
+		for _, x := range nodeOrder {
 			for pos[x] < len(local[x]) {
 				e := local[x][pos[x]]
 				if e.kind == "recv" && shares[e.from] == nil {
@@ -420,6 +475,9 @@ func (net *network) run(ctx context.Context, rep *vlib.Reporter, set []int, loca
 				pos[x]++
 				progressed = true
 				order = append(order, x)
+				if dbg {
+					fmt.Fprintf(dbgOut(), "node %d: %v\n", x, e)
+				}
 				if e.kind == "trig" {
 					outs, err := net.trigger(ctx, x)
 					if err != nil {
@@ -608,3 +666,12 @@ func (net *network) trigger(ctx context.Context, x int) ([]gossipnet.Sent, error
 }
 
 var _ = kprtopics.DecryptionKeys
+
+var dbgFile *os.File
+
+func dbgOut() *os.File {
+	if dbgFile == nil {
+		dbgFile, _ = os.OpenFile(os.Getenv("VERIF_DEBUG"), os.O_CREATE|os.O_WRONLY|os.O_APPEND, 0o644)
+	}
+	return dbgFile
+}
